@@ -452,10 +452,20 @@ mod builtins {
                     None => (0, lower),
                 };
 
+                // computed in i128: `-step` and `start - end` overflow isize
+                // at the boundaries.
                 let len = if start <= end {
                     0
                 } else {
-                    ((start - end + (-step) - 1) / (-step)) as usize
+                    let step = -(step as i128);
+                    let len = (start as i128 - end as i128 + step - 1) / step;
+                    if len > 100000 {
+                        return Err(Error::new(
+                            ErrorKind::InvalidOperation,
+                            "range has too many elements",
+                        ));
+                    }
+                    len as usize
                 };
 
                 let iter = (0..len).map(move |i| start + (i as isize) * step);
